@@ -136,13 +136,13 @@ def cmd_replay(path):
     return EXIT_HARNESS
 
 
-def determinism_selftest(prop, verif_seed, n, workers_list=(3, None)):
+def determinism_selftest(prop, verif_seed, n, workers_list=(3, None), tier='quick'):
     """
     Same seeds executed at two worker counts in this process tree and once more in a fresh interpreter
     under another PYTHONHASHSEED.  All digests must agree.
     """
     mod = importlib.import_module(MODULES[prop])
-    classes = [c for (c, _) in mod.tier_config('quick')['classes']]
+    classes = [c for (c, _) in mod.tier_config(tier)['classes']]
     items = [(c, i) for i in range(max(1, n // len(classes))) for c in classes]
     runs = []
     for w in workers_list:
@@ -249,7 +249,7 @@ def cmd_check(prop, tier, budget_s=None, selftest_n=None):
     det = None
     if n_self:
         t2 = time.time()
-        det = determinism_selftest(prop, verif_seed, n_self)
+        det = determinism_selftest(prop, verif_seed, n_self, tier=tier)
         print(f"[{prop}] determinism self-test: {det['seeds']} seeds x {det['executions_per_seed']} in {time.time() - t2:.1f}s", flush=True)
         if det['mismatches']:
             print(f"HARNESS-ERROR: determinism self-test failed: {det['mismatch_examples']}")
